@@ -185,7 +185,10 @@ static DecOracle dec_oracle(const Bytes &z) {
 // one decompression run of `z` in a random configuration; fileop: 0 stdin->stdout, 1 FILE operand
 static RunCfg dec_cfg_for(Rng &rng, const Bytes &z, size_t out_hint, bool allow_operand) {
   RunCfg r = decompress_cfg(rng, random_workers(rng), true, z.size(), out_hint + 1);
-  if (allow_operand && rng.below(5) == 0) r.argv.push_back("f.bz2");
+  if (allow_operand && rng.below(5) == 0) {
+    if (rng.below(3) == 0) r.argv.push_back("g.bz2");     // the input under test is the SECOND operand of the invocation: state left behind by a successful first one must not matter (seeded change C05-3)
+    r.argv.push_back("f.bz2");
+  }
   return r;
 }
 struct DecRun { sim::Result r; Bytes out; bool operand = false; bool out_file_exists = false; bool in_file_intact = true; };
@@ -195,6 +198,10 @@ static DecRun run_dec(const RunCfg &cfg, const Bytes &z, size_t out_hint, Ctx &c
   x.operand = !r.argv.empty() && r.argv.back() == "f.bz2";
   std::vector<FileSpec> files;
   if (x.operand) { FileSpec f; f.name = "f.bz2"; f.data = z; files.push_back(f); }
+  if (x.operand && std::find(r.argv.begin(), r.argv.end(), "g.bz2") != r.argv.end()) {
+    static const Bytes first = bz::libbz2_encode(Bytes("the first operand of this invocation is a small valid file\n"), 3);
+    FileSpec g; g.name = "g.bz2"; g.data = first; files.push_back(g);
+  }
   r.step_budget = budget_for(z.size(), r.in_granul ? r.in_granul : 262144, out_hint + 1000, r.out_granul ? r.out_granul : 900000, 100);
   x.r = exec(r, x.operand ? Bytes() : z, files, ctx);
   if (x.operand) {
